@@ -365,7 +365,7 @@ pub fn generate(project: &Project, seed: u64, max_len: usize, check_every_step: 
     }
     // Re-ordering edits (members, variants, statements, items) get double weight: they are the
     // only edits that keep every piece of text and change nothing but an order.
-    for k in ["swap_adjacent_lines", "swap_adjacent_items", "shift_space_in_line"] {
+    for k in ["swap_adjacent_lines", "swap_adjacent_items", "shift_space_in_line", "change_attribute"] {
         if enabled.contains(&k) {
             enabled.push(k);
         }
